@@ -30,6 +30,13 @@ BUILTIN_NAMES = {
 }
 
 
+def _unpoison(v):
+    from .values import Poison
+    if isinstance(v, Poison):
+        raise Inexact('the definition of %s was not followed' % v.why)
+    return v
+
+
 class World:
     def __init__(self, repo):
         self.repo = repo
@@ -60,7 +67,9 @@ class World:
         fr.func.closure = None
         interp.frames.append(fr)
         notes = []
+        from .values import Poison, bound_names
         for stmt in mod.tree.body:
+            before = len(notes)
             try:
                 interp.exec_stmt(stmt, fr)
             except AbsRaise as e:
@@ -72,6 +81,12 @@ class World:
             except Exception as e:  # statement outside the modelled subset
                 notes.append('%s: %s: %s' % (type(stmt).__name__,
                                              type(e).__name__, e))
+            if len(notes) > before:
+                # what the statement would have bound is unknown, not absent
+                for n_ in bound_names(stmt):
+                    if n_ not in env:
+                        env[n_] = Poison('%s.%s: %s' % (full, n_,
+                                                        notes[-1][:120]))
         if interp.choices:
             notes.append('module body forked on an unknown condition')
         self.module_notes[full] = notes + interp.notes
@@ -150,7 +165,7 @@ class World:
         if modname in self.repo.modules:
             env = self.env(modname)
             if name in env:
-                return env[name]
+                return _unpoison(env[name])
         sub = modname + '.' + name
         if sub in self.repo.modules:
             return ModRef(sub)
@@ -160,7 +175,7 @@ class World:
         if module is not None:
             env = self.env(module.name)
             if name in env:
-                return env[name]
+                return _unpoison(env[name])
         if name in ('True', 'False', 'None'):
             return K({'True': True, 'False': False, 'None': None}[name])
         from .absint import BUILTIN_EXC
@@ -195,6 +210,11 @@ class World:
                 except (AbsRaise, Inexact) as e:
                     self.module_notes.setdefault('class:' + node.name,
                                                  []).append(str(e))
+                    from .values import Poison, bound_names
+                    for n_ in bound_names(stmt):
+                        if n_ not in attrs:
+                            attrs[n_] = Poison('%s.%s: %s' % (
+                                node.name, n_, str(e)[:120]))
         finally:
             interp.frames.pop()
         for i_, b_ in enumerate(bases):
@@ -261,6 +281,20 @@ class World:
                         acc.cls = cls
                         if acc.node in node.body:
                             acc.closure = fr.env
+        members = attrs.get('__enum_members__')
+        init = attrs.get('__init__')
+        if isinstance(members, ListV) and isinstance(init, FuncRef):
+            # Enum members with an __init__: it receives the member's value,
+            # a tuple value spread over the parameters
+            for m in members.items:
+                val = m.fields['value']
+                if isinstance(val, TupleV):
+                    args = list(val.items)
+                elif isinstance(val, K) and isinstance(val.v, tuple):
+                    args = [K(x) for x in val.v]
+                else:
+                    args = [val]
+                interp.call(init.bind(m), args)
         return cls
 
     def make_dataclass(self, interp, cls, opts, fr):
